@@ -19,6 +19,7 @@ def register(db):
     register_bind_attr(db)
     register_bind_object(db)
     register_bind_any_attr(db)
+    register_leaf_children(db)
     P = ["C15"]
     assume_method(db, "NodeParserObj", "start", raises=["ParserError", "ConverterError", "XmlContextError"])
     assume_method(db, "NodeParserObj", "end", returns="bool", raises=["ParserError", "ConverterError", "XmlContextError"])
@@ -356,3 +357,15 @@ def register_bind_any_attr(db):
         raises={"KeyError": True}, modifies=["params"], properties=["C09"],
         note="KeyError: artefact of the abstract params dictionary (a read after a write is not tracked)",
     ))
+
+
+def register_leaf_children(db):
+    """PrimitiveNode.child / StandardNode.child: an element inside a leaf (simple-typed) element is refused with the
+    library's own context error."""
+    from .c10_strictness import NODES
+    for mod, cls in (("primitive", "PrimitiveNode"), ("standard", "StandardNode")):
+        db.add(Contract(
+            f"{NODES}.{mod}:{cls}.child",
+            params={"self": f"obj:{NODES}.{mod}:{cls}", "qname": "str", "attrs": "opaque:PyDict", "ns_map": "opaque:PyDict", "position": "int"},
+            ensures=[("never-returns-a-node", "False")], raises={"XmlContextError": True}, returns="noreturn", properties=["C15"],
+        ))
